@@ -43,6 +43,12 @@ type c16Config struct {
 	// until its own Flush (and at the end), and offers Unwrap() to the server's writer. What
 	// the transcoder flushes must be the writer it was given.
 	Wrapped bool
+	// Double: the handler answers every request with TWO messages handed over in one Write
+	// (SplitWrite: three bytes first, then the rest of both); the client waits for both.
+	Double bool
+	// Greeting: the handler sends a message before it reads anything, and the client sends its
+	// first request only once that message has arrived.
+	Greeting bool
 }
 
 // c16BufferingWriter is such a middleware writer.
@@ -75,7 +81,7 @@ func (b *c16BufferingWriter) Flush() {
 func (b *c16BufferingWriter) Unwrap() http.ResponseWriter { return b.inner }
 
 func (k c16Config) String() string {
-	return fmt.Sprintf("%s/%s/%s>%s/%s/%v rounds=%d size=%d read=%d flush=%v split=%v wrapped=%v", k.Client, k.ClientCod, k.ClientComp, k.Target, k.TargetCod, k.TargetComp, k.Rounds, k.Size, k.ReadStyle, k.HandlerFl, k.SplitWrite, k.Wrapped)
+	return fmt.Sprintf("%s/%s/%s>%s/%s/%v rounds=%d size=%d read=%d flush=%v split=%v wrapped=%v", k.Client, k.ClientCod, k.ClientComp, k.Target, k.TargetCod, k.TargetComp, k.Rounds, k.Size, k.ReadStyle, k.HandlerFl, k.SplitWrite, k.Wrapped) + map[bool]string{true: " two-responses-per-write", false: ""}[k.Double] + map[bool]string{true: " handler-speaks-first", false: ""}[k.Greeting]
 }
 
 type c16Result struct {
@@ -193,23 +199,29 @@ func c16Exec(k c16Config, prefix []int) (*sched.Run, *c16Result) {
 				}
 				return payload, env[0], nil
 			}
-			for i := 1; i <= k.Rounds; i++ {
-				payload, flags, err := readFrame()
-				if err != nil {
-					res.Problem = fmt.Sprintf("handler: reading request %d: %v", i, err)
-					return
-				}
-				if flags&1 != 0 && comp != nil {
-					if payload, err = comp.Decompress(payload); err != nil {
-						res.Problem = fmt.Sprintf("handler: request %d does not decompress: %v", i, err)
+			firstRound := 1
+			if k.Greeting {
+				firstRound = 0 // round 0: the handler speaks first, there is no request to read
+			}
+			for i := firstRound; i <= k.Rounds; i++ {
+				if i > 0 {
+					payload, flags, err := readFrame()
+					if err != nil {
+						res.Problem = fmt.Sprintf("handler: reading request %d: %v", i, err)
 						return
 					}
+					if flags&1 != 0 && comp != nil {
+						if payload, err = comp.Decompress(payload); err != nil {
+							res.Problem = fmt.Sprintf("handler: request %d does not decompress: %v", i, err)
+							return
+						}
+					}
+					if sent < i {
+						res.OrderOK = false
+						res.Problem = fmt.Sprintf("handler observed request %d before the client sent it", i)
+					}
+					res.HandlerGot = append(res.HandlerGot, canonMsg(codec, world.MsgDesc(), payload))
 				}
-				if sent < i {
-					res.OrderOK = false
-					res.Problem = fmt.Sprintf("handler observed request %d before the client sent it", i)
-				}
-				res.HandlerGot = append(res.HandlerGot, canonMsg(codec, world.MsgDesc(), payload))
 				out := Enc(codec, c16Msg(100+i, k.Size))
 				fl := byte(0)
 				if comp != nil && len(out) > 0 {
@@ -218,7 +230,21 @@ func c16Exec(k c16Config, prefix []int) (*sched.Run, *c16Result) {
 				var env [5]byte
 				env[0] = fl
 				binary.BigEndian.PutUint32(env[1:], uint32(len(out)))
-				if k.SplitWrite {
+				if k.Double {
+					both := append(env[:], out...)
+					out2 := Enc(codec, c16Msg(200+i, k.Size))
+					fl2 := byte(0)
+					if comp != nil && len(out2) > 0 {
+						out2, fl2 = comp.Compress(out2), 1
+					}
+					both = wire.AppendFrame(both, fl2, out2)
+					if k.SplitWrite {
+						_, _ = w.Write(both[:3])
+						_, _ = w.Write(both[3:])
+					} else {
+						_, _ = w.Write(both)
+					}
+				} else if k.SplitWrite {
 					_, _ = w.Write(env[:])
 					if len(out) > 0 {
 						_, _ = w.Write(out)
@@ -273,51 +299,63 @@ func c16Exec(k c16Config, prefix []int) (*sched.Run, *c16Result) {
 		ccomp := wire.CompByName(k.ClientComp)
 		r.Go("client", func() {
 			consumed := 0
-			for i := 1; i <= k.Rounds; i++ {
-				p := Enc(k.ClientCod, c16Msg(i, k.Size))
-				fl := byte(0)
-				if ccomp != nil && len(p) > 0 {
-					p, fl = ccomp.Compress(p), 1
-				}
-				h.Point("client.write", body)
-				body.Data = wire.AppendFrame(body.Data, fl, p)
-				sent = i
-				// wait for response i to be completely visible
-				var need int
-				for stage := 0; stage < 2; stage++ {
-					if stage == 0 {
-						need = consumed + 5
+			firstRound := 1
+			if k.Greeting {
+				firstRound = 0 // the client sends its first request only after the handler's greeting
+			}
+			for i := firstRound; i <= k.Rounds; i++ {
+				if i > 0 {
+					p := Enc(k.ClientCod, c16Msg(i, k.Size))
+					fl := byte(0)
+					if ccomp != nil && len(p) > 0 {
+						p, fl = ccomp.Compress(p), 1
 					}
-					h.Block("client.wait", rec, func() bool { return rec.Visible() >= need || rec.Finished })
-					if rec.Visible() < need {
-						res.Problem = fmt.Sprintf("client: response stream ended before response %d arrived (visible %d, need %d)", i, rec.Visible(), need)
+					h.Point("client.write", body)
+					body.Data = wire.AppendFrame(body.Data, fl, p)
+					sent = i
+				}
+				perRound := 1
+				if k.Double {
+					perRound = 2
+				}
+				for j := 0; j < perRound; j++ {
+					// wait for response i to be completely visible
+					var need int
+					for stage := 0; stage < 2; stage++ {
+						if stage == 0 {
+							need = consumed + 5
+						}
+						h.Block("client.wait", rec, func() bool { return rec.Visible() >= need || rec.Finished })
+						if rec.Visible() < need {
+							res.Problem = fmt.Sprintf("client: response stream ended before response %d arrived (visible %d, need %d)", i, rec.Visible(), need)
+							return
+						}
+						if stage == 0 {
+							env := rec.BodyBytes.Bytes()[consumed : consumed+5]
+							need = consumed + 5 + int(binary.BigEndian.Uint32(env[1:]))
+						}
+					}
+					frame := rec.BodyBytes.Bytes()[consumed:need]
+					payload := append([]byte(nil), frame[5:]...)
+					if frame[0]&0x82 != 0 {
+						res.Problem = fmt.Sprintf("client: got end-of-stream frame instead of response %d", i)
 						return
 					}
-					if stage == 0 {
-						env := rec.BodyBytes.Bytes()[consumed : consumed+5]
-						need = consumed + 5 + int(binary.BigEndian.Uint32(env[1:]))
+					if frame[0]&1 != 0 {
+						respComp := wire.CompByName(rec.Snapshot.Get(map[wire.Form]string{wire.GRPC: "Grpc-Encoding", wire.GRPCWeb: "Grpc-Encoding", wire.ConnectStream: "Connect-Content-Encoding"}[k.Client]))
+						if respComp == nil {
+							res.Problem = "client: compressed frame without declared encoding"
+							return
+						}
+						var err error
+						if payload, err = respComp.Decompress(payload); err != nil {
+							res.Problem = fmt.Sprintf("client: response %d does not decompress: %v", i, err)
+							return
+						}
 					}
+					res.ClientGot = append(res.ClientGot, canonMsg(k.ClientCod, world.MsgDesc(), payload))
+					consumed = need
 				}
-				frame := rec.BodyBytes.Bytes()[consumed:need]
-				payload := append([]byte(nil), frame[5:]...)
-				if frame[0]&0x82 != 0 {
-					res.Problem = fmt.Sprintf("client: got end-of-stream frame instead of response %d", i)
-					return
-				}
-				if frame[0]&1 != 0 {
-					respComp := wire.CompByName(rec.Snapshot.Get(map[wire.Form]string{wire.GRPC: "Grpc-Encoding", wire.GRPCWeb: "Grpc-Encoding", wire.ConnectStream: "Connect-Content-Encoding"}[k.Client]))
-					if respComp == nil {
-						res.Problem = "client: compressed frame without declared encoding"
-						return
-					}
-					var err error
-					if payload, err = respComp.Decompress(payload); err != nil {
-						res.Problem = fmt.Sprintf("client: response %d does not decompress: %v", i, err)
-						return
-					}
-				}
-				res.ClientGot = append(res.ClientGot, canonMsg(k.ClientCod, world.MsgDesc(), payload))
-				consumed = need
 			}
 			h.Point("client.close", body)
 			body.Open = false
@@ -367,6 +405,31 @@ func c16Configs(tier string) []c16Config {
 												Rounds: n, Size: sz, ReadStyle: rs, HandlerFl: fl == 1, SplitWrite: false, Wrapped: true})
 										}
 									}
+								}
+							}
+						}
+					}
+				}
+			}
+		}
+	}
+	// two responses per request, handed to the transcoder in one Write (appended last: the
+	// indices of the configurations above are stable)
+	for _, cf := range forms {
+		for _, tf := range forms {
+			for _, codecs := range [][2]string{{"proto", "proto"}, {"json", "proto"}, {"proto", "json"}} {
+				if cf == tf && codecs[0] == codecs[1] {
+					continue
+				}
+				for _, cp := range comps[:2] {
+					for _, n := range []int{1, 2} {
+						for _, sz := range []int{0, 300} {
+							for fl := 0; fl < 2; fl++ {
+								for sp := 0; sp < 2; sp++ {
+									out = append(out, c16Config{Client: cf, Target: tf, ClientCod: codecs[0], TargetCod: codecs[1], ClientComp: cp.c, TargetComp: cp.t,
+										Rounds: n, Size: sz, HandlerFl: fl == 1, SplitWrite: sp == 1, Double: true})
+									out = append(out, c16Config{Client: cf, Target: tf, ClientCod: codecs[0], TargetCod: codecs[1], ClientComp: cp.c, TargetComp: cp.t,
+										Rounds: n, Size: sz, HandlerFl: fl == 1, SplitWrite: sp == 1, Greeting: true})
 								}
 							}
 						}
@@ -461,6 +524,13 @@ func c16Judge(k c16Config, run *sched.Run, res *c16Result) [][2]string {
 	fail := func(clause, format string, args ...any) {
 		fails = append(fails, [2]string{clause, fmt.Sprintf(format, args...)})
 	}
+	perRound, greet := 1, 0
+	if k.Double {
+		perRound = 2
+	}
+	if k.Greeting {
+		greet = 1
+	}
 	switch {
 	case run.Deadlock:
 		fail("C16.deadlock", "client and handler are both blocked (%v) after %d client responses / %d handler requests: a message was not forwarded when complete", run.Blocked, len(res.ClientGot), len(res.HandlerGot))
@@ -470,12 +540,17 @@ func c16Judge(k c16Config, run *sched.Run, res *c16Result) [][2]string {
 		fail("C16.livelock", "step horizon reached")
 	case res.Problem != "":
 		fail("C16.exchange-broken", "%s", res.Problem)
-	case !res.ClientDone || !res.HandlerDone || len(res.ClientGot) != k.Rounds || len(res.HandlerGot) != k.Rounds:
+	case !res.ClientDone || !res.HandlerDone || len(res.ClientGot) != (k.Rounds+greet)*perRound || len(res.HandlerGot) != k.Rounds:
 		fail("C16.exchange-incomplete", "client done=%v handler done=%v responses=%d requests=%d", res.ClientDone, res.HandlerDone, len(res.ClientGot), len(res.HandlerGot))
 	default:
 		for i := 0; i < k.Rounds; i++ {
-			if want := canonMsg("proto", world.MsgDesc(), Enc("proto", c16Msg(100+i+1, k.Size))); res.ClientGot[i] != want {
-				fail("C16.wrong-message", "response %d: got %s", i+1, short(res.ClientGot[i]))
+			if want := canonMsg("proto", world.MsgDesc(), Enc("proto", c16Msg(100+i+1, k.Size))); res.ClientGot[(i+greet)*perRound] != want {
+				fail("C16.wrong-message", "response %d: got %s", i+1, short(res.ClientGot[(i+greet)*perRound]))
+			}
+			if k.Double {
+				if want := canonMsg("proto", world.MsgDesc(), Enc("proto", c16Msg(200+i+1, k.Size))); res.ClientGot[(i+greet)*2+1] != want {
+					fail("C16.wrong-message", "second response to request %d: got %s", i+1, short(res.ClientGot[(i+greet)*2+1]))
+				}
 			}
 			if want := canonMsg("proto", world.MsgDesc(), Enc("proto", c16Msg(i+1, k.Size))); res.HandlerGot[i] != want {
 				fail("C16.wrong-message", "request %d: got %s", i+1, short(res.HandlerGot[i]))
